@@ -34,6 +34,11 @@ Proof. unfold fire. apply (cb_loop_spec cbs (S (length cbs)) [] []). lia. Qed.
 (* ---- single steps ------------------------------------------------------------------------------------------ *)
 Section Steps.
   Variable c : dcfg.
+  (* ordinary callbacks: none registers further callbacks while it fires (re-entrant registration is
+     treated below: fire_re_reentrant) *)
+  Hypothesis Hnk : dc_kids c = [].
+  Lemma fire_re_plain cbs : fire_re (dc_kids c) cbs = fire cbs.
+  Proof. rewrite Hnk. reflexivity. Qed.
 
   Lemma d_writer_cbs st : d_cbs (fst (d_writer c st)) = d_cbs st /\ d_closed (fst (d_writer c st)) = d_closed st.
   Proof. unfold d_writer. destruct (d_inner st); [auto|]. destruct (direct_open c); auto. Qed.
@@ -44,7 +49,7 @@ Section Steps.
     d_cbs (fst (d_step c st (DPut k d))) = filter keep (d_cbs st) /\
     d_closed (fst (d_step c st (DPut k d))) = false.
   Proof.
-    intros Hc. cbn [d_step]. rewrite Hc, fire_spec.
+    intros Hc. cbn [d_step]. rewrite Hc, fire_re_plain, fire_spec.
     match goal with |- context [d_writer c ?x] => set (st1 := x) end.
     pose proof (d_writer_cbs st1) as (H1 & H2). cbn [st1 d_cbs d_closed] in H1, H2. fold st1 in H1, H2.
     destruct (d_writer c st1) as [st2 [s|e]]; cbn [fst] in H1, H2.
@@ -133,7 +138,7 @@ Section Steps.
     - (* Put goes to the existing writer *)
       assert (E : d_closed (fst (d_step c st (DPut k d))) = false /\
                   d_inner (fst (d_step c st (DPut k d))) = Some (fst (st_put s k d))).
-      { cbn [d_step]. rewrite Hc, fire_spec. unfold d_writer. cbn [d_inner]. rewrite Hi.
+      { cbn [d_step]. rewrite Hc, fire_re_plain, fire_spec. unfold d_writer. cbn [d_inner]. rewrite Hi.
         destruct (st_put s k d) as [s' r]. cbn [fst d_closed d_inner]. auto. }
       destruct E as (E1 & E2). rewrite (IH _ _ E1 E2). unfold direct_run. rewrite direct_puts_cons. reflexivity.
     - (* Close finalizes; nothing moves afterwards *)
@@ -153,7 +158,7 @@ Section Steps.
     - assert (E : fst (d_step c st (DHas k)) = st) by (cbn [d_step]; rewrite Hc, Hi; reflexivity).
       rewrite E in Hs. apply (IH st); assumption.
     - (* the first Put creates the writer exactly as the direct constructor does *)
-      cbn [d_step] in Hs. rewrite Hc, fire_spec in Hs. unfold d_writer in Hs. cbn [d_inner] in Hs. rewrite Hi in Hs.
+      cbn [d_step] in Hs. rewrite Hc, fire_re_plain, fire_spec in Hs. unfold d_writer in Hs. cbn [d_inner] in Hs. rewrite Hi in Hs.
       destruct (direct_open c) as [s0|e] eqn:Eo.
       + exists s0. split; [reflexivity|].
         destruct (st_put s0 k d) as [s' r] eqn:Ep. cbn [fst] in Hs.
@@ -184,14 +189,14 @@ Section Steps.
   Qed.
 End Steps.
 
-Theorem callbacks_history c pre k d :
+Theorem callbacks_history c pre k d : dc_kids c = [] ->
   do_log (snd (d_step c (d_run c d_init pre) (DPut k d))) = expected_log pre d.
 Proof.
-  pose proof (live_run c pre d_init) as H. cbn [d_init d_cbs d_closed] in H. fold (live pre) in H.
+  intros Hnk. pose proof (live_run c Hnk pre d_init) as H. cbn [d_init d_cbs d_closed] in H. fold (live pre) in H.
   unfold expected_log. rewrite <- H. cbn [fst snd].
   destruct (d_closed (d_run c d_init pre)) eqn:Hc.
   - destruct (closed_step c _ (DPut k d) Hc) as (_ & _ & _ & _ & H4). exact H4.
-  - destruct (put_callbacks c _ k d Hc) as (H1 & _). exact H1.
+  - destruct (put_callbacks c Hnk _ k d Hc) as (H1 & _). exact H1.
 Qed.
 
 (* from the initial state *)
@@ -199,33 +204,33 @@ Theorem lazy_init c ops : d_puts ops = [] ->
   Forall (fun so => d_bytes c (fst so) = pre_bytes c /\ d_exists c (fst so) = pre_exists c) (d_trace c d_init ops).
 Proof. intros H. apply lazy_trace; [split; reflexivity|exact H]. Qed.
 
-Theorem identical_init c ops s : d_inner (d_run c d_init ops) = Some s ->
+Theorem identical_init c ops s : dc_kids c = [] -> d_inner (d_run c d_init ops) = Some s ->
   exists s0, direct_open c = Ok s0 /\ s = direct_run s0 (d_puts ops) (existsb is_close ops).
-Proof. apply identical_from; reflexivity. Qed.
+Proof. intros Hnk. apply identical_from; try reflexivity. exact Hnk. Qed.
 
 (* the observable output once a writer exists: exactly the direct writer's file, and the file exists
    (path target) -- dc_pre does not occur on the right-hand side: whatever was at the path is gone *)
-Theorem output_is_direct c ops s : d_inner (d_run c d_init ops) = Some s ->
+Theorem output_is_direct c ops s : dc_kids c = [] -> d_inner (d_run c d_init ops) = Some s ->
   exists s0, direct_open c = Ok s0 /\
              d_bytes c (d_run c d_init ops) = ws_file (direct_run s0 (d_puts ops) (existsb is_close ops)).
 Proof.
-  intros H. destruct (identical_init c ops s H) as (s0 & H0 & H1). exists s0. split; [exact H0|].
+  intros Hnk H. destruct (identical_init c ops s Hnk H) as (s0 & H0 & H1). exists s0. split; [exact H0|].
   unfold d_bytes. rewrite H, H1. reflexivity.
 Qed.
 
 Lemma direct_open_ignores_pre c pre :
-  direct_open (mkdcfg (dc_target c) (dc_opts c) (dc_v1_given c) (dc_nilroots c) (dc_roots c) pre (dc_faults c)) = direct_open c.
+  direct_open (mkdcfg (dc_target c) (dc_opts c) (dc_v1_given c) (dc_nilroots c) (dc_roots c) pre (dc_faults c) (dc_kids c)) = direct_open c.
 Proof. reflexivity. Qed.
 
 (* the inner writer exists only after the path was opened with create+truncate (path target) *)
-Lemma created_when_inner c ops : forall st, (d_inner st <> None -> dc_target c = TPath -> d_created st = true) ->
+Lemma created_when_inner c ops : dc_kids c = [] -> forall st, (d_inner st <> None -> dc_target c = TPath -> d_created st = true) ->
   d_inner (d_run c st ops) <> None -> dc_target c = TPath -> d_created (d_run c st ops) = true.
 Proof.
-  induction ops as [|op t IH]; intros st Hst; [exact Hst|]. rewrite d_run_cons. apply IH. clear IH.
+  intros Hnk. induction ops as [|op t IH]; intros st Hst; [exact Hst|]. rewrite d_run_cons. apply IH. clear IH.
   destruct op as [id once|k|k d|]; cbn [d_step].
   - exact Hst.
   - destruct (d_closed st); [exact Hst|]. destruct (d_inner st) as [w|] eqn:E; cbn [fst]; rewrite ?E; exact Hst.
-  - destruct (d_closed st); [exact Hst|]. rewrite fire_spec. unfold d_writer. cbn [d_inner d_created d_cbs d_closed].
+  - destruct (d_closed st); [exact Hst|]. rewrite (fire_re_plain c Hnk), fire_spec. unfold d_writer. cbn [d_inner d_created d_cbs d_closed].
     destruct (d_inner st) as [w|] eqn:E.
     + destruct (st_put w k d). cbn [fst d_created]. intros _ Ht. apply Hst; [congruence|exact Ht].
     + destruct (direct_open c) as [s0|e]; [destruct (st_put s0 k d)|]; cbn [fst d_inner d_created]; intros _ Ht; rewrite Ht; reflexivity.
@@ -234,16 +239,16 @@ Proof.
     + congruence.
 Qed.
 
-Theorem created_init c ops :
+Theorem created_init c ops : dc_kids c = [] ->
   d_inner (d_run c d_init ops) <> None -> dc_target c = TPath -> d_created (d_run c d_init ops) = true.
-Proof. apply created_when_inner. intros H. exfalso. apply H. reflexivity. Qed.
+Proof. intros Hnk. apply created_when_inner; [exact Hnk|]. intros H. exfalso. apply H. reflexivity. Qed.
 
 (* a Put's result is the direct writer's result for that Put *)
-Theorem put_result_direct c pre k d s :
+Theorem put_result_direct c pre k d s : dc_kids c = [] ->
   d_closed (d_run c d_init pre) = false -> d_inner (d_run c d_init pre) = Some s ->
   do_res (snd (d_step c (d_run c d_init pre) (DPut k d))) = snd (st_put s k d).
 Proof.
-  intros Hc Hi. cbn [d_step]. rewrite Hc, fire_spec. unfold d_writer. cbn [d_inner]. rewrite Hi.
+  intros Hnk Hc Hi. cbn [d_step]. rewrite Hc, (fire_re_plain c Hnk), fire_spec. unfold d_writer. cbn [d_inner]. rewrite Hi.
   destruct (st_put s k d). reflexivity.
 Qed.
 
@@ -253,9 +258,9 @@ Definition exd_k1 : bytes := cid_enc (mkcid 1 85 18 exd_digest).
 Definition exd_k2 : bytes := cid_enc (mkcid 1 112 18 exd_digest).     (* same multihash: skipped *)
 Definition exd_k3 : bytes := cid_enc (mkcid 1 113 18 (rev exd_digest)).
 Definition exd_o : wopts := mkwopts 0 0 1025 false 2048 false false false false 33554432 8388608.
-Definition exd_cfg : dcfg := mkdcfg TStream exd_o false false [exd_k1] None [].
+Definition exd_cfg : dcfg := mkdcfg TStream exd_o false false [exd_k1] None [] [].
 (* a path target on which a 500-byte file already sits *)
-Definition exd_pcfg : dcfg := mkdcfg TPath exd_o false false [exd_k1] (Some (zeros 500)) [].
+Definition exd_pcfg : dcfg := mkdcfg TPath exd_o false false [exd_k1] (Some (zeros 500)) [] [].
 Definition exd_ops : list dop :=
   [DOnPut 1 false; DHas exd_k1; DOnPut 2 true; DPut exd_k1 [x01; x02]; DOnPut 3 true; DPut exd_k2 [x01; x02];
    DPut exd_k3 [x03]; DHas exd_k3; DClose; DPut exd_k1 [x01]; DHas exd_k1; DClose].
@@ -273,7 +278,7 @@ Example C20_example_identical :
              d_puts exd_ops = [(exd_k1, [x01; x02]); (exd_k2, [x01; x02]); (exd_k3, [x03])].
 Proof.
   destruct (d_inner (d_run exd_cfg d_init exd_ops)) as [s|] eqn:E; [|vm_compute in E; discriminate].
-  destruct (identical_init exd_cfg exd_ops s E) as (s0 & H0 & H1). exists s0. split; [exact H0|]. split.
+  destruct (identical_init exd_cfg exd_ops s eq_refl E) as (s0 & H0 & H1). exists s0. split; [exact H0|]. split.
   - rewrite H1. reflexivity.
   - reflexivity.
 Qed.
@@ -288,7 +293,7 @@ Example C20_example_overwrites_longer_file :
   map (fun so => blen (d_bytes exd_pcfg (fst so))) (d_trace exd_pcfg d_init exd_ops)
   = [500; 500; 500; 149; 149; 149; 187; 187; 297; 297; 297; 297] /\
   d_bytes exd_pcfg (d_run exd_pcfg d_init exd_ops)
-  = d_bytes (mkdcfg TPath exd_o false false [exd_k1] None []) (d_run (mkdcfg TPath exd_o false false [exd_k1] None []) d_init exd_ops).
+  = d_bytes (mkdcfg TPath exd_o false false [exd_k1] None [] []) (d_run (mkdcfg TPath exd_o false false [exd_k1] None [] []) d_init exd_ops).
 Proof. vm_compute. split; reflexivity. Qed.
 
 (* ---- write faults: after ANY Close -- successful or not -- the writer is closed ------------------------- *)
@@ -328,7 +333,7 @@ Qed.
 (* non-vacuity with a Close whose Finalize FAILS: a stream that breaks 5 bytes into the CID of the first
    block (4th write call).  The Put fails, the StorageCar keeps the write error (it cannot take the
    partial section back), Close reports it -- and the writer is closed all the same *)
-Definition exd_fcfg : dcfg := mkdcfg TStream exd_o false false [exd_k1] None [None; None; None; Some 5].
+Definition exd_fcfg : dcfg := mkdcfg TStream exd_o false false [exd_k1] None [None; None; None; Some 5] [].
 Definition exd_fops : list dop :=
   [DOnPut 1 false; DPut exd_k1 [x01; x02]; DPut exd_k3 [x03]; DClose; DClose; DPut exd_k1 [x01]; DHas exd_k1].
 
@@ -380,14 +385,14 @@ Qed.
 
 (* identical, for opener histories: the output is the direct writer's for the committed blocks (and the
    plain Puts), in order; uncommitted writers contribute nothing *)
-Theorem dx_identical c ops s :
+Theorem dx_identical c ops s : dc_kids c = [] ->
   d_inner (dx_st (dx_run c dx_init ops)) = Some s ->
   exists s0, direct_open c = Ok s0 /\
              s = direct_run s0 (d_puts (dx_flatten [] ops)) (existsb is_close (dx_flatten [] ops)) /\
              d_bytes c (dx_st (dx_run c dx_init ops)) = ws_file s.
 Proof.
-  rewrite dx_run_flatten. cbn [dx_init dx_st dx_bufs]. intros H.
-  destruct (identical_init c _ s H) as (s0 & H0 & H1). exists s0. split; [exact H0|]. split; [exact H1|].
+  intros Hnk. rewrite dx_run_flatten. cbn [dx_init dx_st dx_bufs]. intros H.
+  destruct (identical_init c _ s Hnk H) as (s0 & H0 & H1). exists s0. split; [exact H0|]. split; [exact H1|].
   unfold d_bytes. rewrite H. reflexivity.
 Qed.
 
